@@ -34,6 +34,7 @@ type simSide struct {
 	q          map[uint32]int
 	budget     int
 	pend       []func()
+	unread     int // frames waiting in this end's socket buffer while its reader is still blocked
 	events     []evObs
 	after      []string
 	sent       []sentW // Writes that reached the trunk wholly or in part
@@ -44,16 +45,18 @@ type simSide struct {
 }
 
 type sim struct {
-	qlen     int
-	side     [2]*simSide
-	orderly  bool
-	overflow bool
-	bad      []string // time-outs, panics, early returns (Go-side oracle)
-	done     map[int]bool // background Writes already accounted for at their start
+	qlen       int
+	unix       bool // a unix socket: closing an end that has unread bytes resets the connection
+	side       [2]*simSide
+	orderly    bool
+	overflow   bool
+	selfClosed []int        // sides whose Mux closed itself (reader failure, overflow, failing Write), in order
+	bad        []string     // time-outs, panics, early returns (Go-side oracle)
+	done       map[int]bool // background Writes already accounted for at their start
 }
 
 func newSim(s *scriptScn) *sim {
-	m := &sim{qlen: s.QLen, orderly: true}
+	m := &sim{qlen: s.QLen, orderly: true, unix: s.Transport == "unix"}
 	for i := 0; i < 2; i++ {
 		sd := &simSide{raw: s.Raw[i], blocked: s.Blocked[i], opened: s.Open[i], budget: s.Cut[i],
 			mapped: map[uint32]bool{}, cclosed: map[uint32]bool{}, q: map[uint32]int{}, recv: map[uint32][]string{}}
@@ -99,6 +102,9 @@ func (m *sim) wouldBlock(i int, id uint32) bool {
 
 // a complete frame for id arrives at side i
 func (m *sim) onFrame(i int, id uint32) {
+	if sd := m.side[i]; !sd.raw && sd.blocked && !sd.gone {
+		sd.unread++
+	}
 	m.reader(i, func() {
 		sd := m.side[i]
 		m.ev(i, "EvReader", "ONone")
@@ -118,7 +124,8 @@ func (m *sim) onFrame(i int, id uint32) {
 		}
 		// queue overflow: the reader latches the error and closes everything
 		m.overflow, m.orderly = true, false
-		sd.readerDone, sd.closed = true, true
+		sd.readerDone = true
+		m.selfClose(i)
 		m.trunkShut(i)
 	})
 }
@@ -130,43 +137,84 @@ func (m *sim) trunkShut(i int) {
 		return
 	}
 	sd.gone, sd.txDown = true, true
-	m.peerGone(1 - i)
+	m.peerGone(1-i, m.resets(i))
+}
+
+// resets: side i closes its end of a unix socket while bytes of the peer are unread in its
+// receive buffer.  The kernel then reports ECONNRESET to the peer instead of an end-of-file:
+// for the peer this is a failing trunk, not an orderly close.
+func (m *sim) resets(i int) bool {
+	return m.unix && m.side[i].blocked && m.side[i].unread > 0
 }
 
 // the other end has shut the trunk: writes fail from now on, the reader sees the end
-func (m *sim) peerGone(i int) {
+func (m *sim) peerGone(i int, reset bool) {
 	sd := m.side[i]
 	if sd.raw {
 		return
 	}
 	sd.txDown = true
 	m.ev(i, "EvTrunkDown", "ONone")
-	m.readerEnd(i)
+	if reset {
+		m.orderly = false
+	}
+	m.readerEnd(i, reset)
 }
 
 // side i's reader finds the trunk ended or closed; it closes its own Mux
-func (m *sim) readerEnd(i int) {
+func (m *sim) readerEnd(i int, reset bool) {
 	m.reader(i, func() {
 		sd := m.side[i]
-		m.ev(i, "EvReader", "ONone")
+		if reset {
+			m.ev(i, "EvTrunkFail", "ONone")
+		} else {
+			m.ev(i, "EvReader", "ONone")
+		}
 		if !sd.readerDone {
-			sd.readerDone, sd.closed = true, true
+			sd.readerDone = true
+			m.selfClose(i)
 		}
 		m.trunkShut(i)
 	})
 }
 
-// the cutting wrapper of side i has closed the transport after the byte budget
+func (m *sim) selfClose(i int) {
+	if !m.side[i].closed {
+		m.side[i].closed = true
+		m.selfClosed = append(m.selfClosed, i)
+	}
+}
+
+// the byte budget of side i's outgoing direction is used up (see recConn): if the failing
+// trunk.Write returned n != 0 the Mux has closed itself and thereby the whole trunk; otherwise the
+// Mux stays open, only the outgoing direction is shut down and the peer's reader sees the stream end
 func (m *sim) cutHappens(i int) {
 	m.orderly = false
 	sd := m.side[i]
+	sd.txDown = true
+	if sd.closed {
+		m.reader(i, func() {
+			m.ev(i, "EvReader", "ONone")
+			sd.readerDone = true
+		})
+		m.trunkShut(i)
+		return
+	}
+	m.readerEnd(1-i, false)
+}
+
+// side i's end of the transport is closed under the Mux (a failing transport)
+func (m *sim) transportClosed(i int) {
+	m.orderly = false
+	sd := m.side[i]
 	was := sd.gone
+	reset := !was && m.resets(i)
 	sd.gone, sd.txDown = true, true
 	if !sd.raw {
-		m.readerEnd(i)
+		m.readerEnd(i, false)
 	}
 	if !was {
-		m.peerGone(1 - i)
+		m.peerGone(1-i, reset)
 	}
 }
 
@@ -248,7 +296,7 @@ func (m *sim) doWrite(i int, id uint32, seq, size int, r actRes) {
 	}
 	sd.budget = 0
 	if n != 0 {
-		sd.closed = true // setError + Close inside mux.write
+		m.selfClose(i) // setError + Close inside mux.write
 	}
 	m.cutHappens(i)
 }
@@ -277,8 +325,16 @@ func (m *sim) doRead(i int, id uint32, r actRes) {
 func (m *sim) doRaw(i int, b []byte, r actRes) {
 	sd := m.side[i]
 	m.note(i, "raw write", r)
-	if sd.txDown || r.Kind != "ok" {
+	if sd.txDown {
 		return
+	}
+	if r.Kind != "ok" {
+		// the Mux at the other end shut the trunk while the bytes were going out (net.Pipe hands
+		// over exactly what the reader consumed): an initial part arrived
+		if r.N < 0 || r.N > len(b) {
+			return
+		}
+		b = b[:r.N]
 	}
 	sd.rawbuf = append(sd.rawbuf, b...)
 	for {
@@ -389,9 +445,12 @@ func (m *sim) apply(s *scriptScn, idx int, a act, r actRes, results []actRes) {
 	case "trunkclose":
 		m.orderly = false
 		m.ev(i, "EvTrunkDown", "ONone")
-		m.cutHappens(i)
+		m.transportClosed(i)
+	case "await":
+		m.note(i, "waiting for the Mux to close its trunk after the fault", r)
 	case "unblock":
 		sd.blocked = false
+		sd.unread = 0
 		p := sd.pend
 		sd.pend = nil
 		for _, f := range p {
